@@ -228,6 +228,16 @@ def shrink(c):
             yield dict(c, rows=c["rows"][:r] + c["rows"][r + 1:], labels=labels, dists=[d[:r] + d[r + 1:] for d in c["dists"]])
 
 
+# functions of the implementation this property is anchored in: their line coverage under the correspondence cases is
+# measured on the staged copy and reported in the evidence (implementation_line_coverage)
+ANCHORS = [
+    "datascope/importance/shapley.py:compute_shapley_add",
+    "datascope/importance/oracle.py:compile",
+    "datascope/importance/oracle.py:ShapleyOracle.__init__",
+    "datascope/importance/oracle.py:ShapleyOracle.query",
+    "datascope/importance/shapley.py:ShapleyImportance._shapley_neighbor",
+]
+
 MANIFEST = {
     "text": "Proof: C02_add_is_shapley -- for EVERY K >= 1, number of units, conjunctive hypergraph (shared units, rows "
             "needing several units, units owning several or no rows), encoded labels, utility table, null vector and "
